@@ -33,6 +33,10 @@ def make_ds(ctx, rng, d):
     df["f"] = np.array([rng.choice([float(rng.randrange(0, 6)), float("nan")]) for _ in range(n)], dtype="float64")
     df["s"] = pd.Series([rng.choice(["a", "b", "c", None]) for _ in range(n)], dtype=object)
     df["flag"] = np.array([rng.randrange(0, 2) for _ in range(n)], dtype="int64")
+    # output-only columns of the kinds that take other decode paths (masked arrays, categorical codes)
+    df["nI"] = pd.array([None if rng.random() < 0.3 else rng.randrange(0, 50) for _ in range(n)], dtype="Int64")
+    df["nb"] = pd.array([None if rng.random() < 0.3 else bool(rng.randrange(0, 2)) for _ in range(n)], dtype="boolean")
+    df["cat"] = pd.Categorical([rng.choice(["x", "y", "z"]) for _ in range(n)])
     parts = []
     layout = rng.choice(["simple", "simple", "hive", "hive-part"])
     if layout == "hive-part":
@@ -102,7 +106,7 @@ def run(ctx, report):
         report.count(f"pages:{desc['pagesize']}:v{desc['page_version']}")
         for p in range(nprog):
             kind = rng.choice(["flat1", "flat2", "flat3", "or2", "or3", "mask", "mask"])
-            outcols = rng.choice([None, ["rid"], ["rid", "s"], ["rid", "f", "i"]])
+            outcols = rng.choice([None, ["rid"], ["rid", "s"], ["rid", "f", "i"], ["rid", "nI"], ["rid", "cat", "nb"]])
             rec = {"check": "rowfilter", "dataset": desc, "program": kind, "out_columns": outcols}
             ctx.crumb(rec)
             try:
